@@ -327,7 +327,10 @@ def evaluate__base_uri(self: XPathFunction, context: ta.ContextType = None) \
         return []
     elif isinstance(item, XPathNode):
         uri = item.base_uri
-        return AnyURI(uri if uri is not None else '')
+        try:
+            return AnyURI(uri if uri is not None else '')
+        except ValueError as err:
+            raise self.error('FORG0001', err) from None  # e.g. an invalid xml:base attribute
     else:
         raise self.error('XPTY0004', "context item is not a node")
 
